@@ -26,6 +26,11 @@ pub struct ReplayFile {
     /// hash of the observable log of the recorded execution
     pub log_hash: String,
     pub minimised: bool,
+    /// crash-point sweep settings of the check that produced the file
+    #[serde(default)]
+    pub sweep_one_in: Option<u32>,
+    #[serde(default)]
+    pub sweep_interior: u32,
 }
 
 #[derive(Debug, Clone, Serialize)]
@@ -138,6 +143,20 @@ impl Driver {
         self.digest(action, &obs);
         self.learn(action, &obs);
         self.checker.after_step(&mut self.world, action, &obs);
+        if obs.journal_pruned && self.world.dead.is_none() {
+            self.checker.after_prune(&self.world);
+        }
+        if matches!(action, Action::CrashServer { .. })
+            && let Some(reference) = self.checker.after_restore(&mut self.world)
+        {
+            // what a user of the new server can know about the jobs
+            self.know.jobs = reference
+                .jobs
+                .iter()
+                .map(|(id, j)| (*id, j.open, j.tasks.keys().copied().collect()))
+                .collect();
+            self.cancel_pending = false;
+        }
         // reconnect clients whose connection ended (after a Disconnect)
         let closed: Vec<u32> = self
             .world
@@ -533,6 +552,10 @@ pub struct RunOptions {
     pub verbose: bool,
     pub tag: String,
     pub force_journal: Option<bool>,
+    /// crash-point sweep over the final journal in one of N runs (None/0: never)
+    pub sweep_one_in: Option<u32>,
+    /// interior bytes per record in a sweep
+    pub sweep_interior: u32,
 }
 
 fn finish(d: Driver, seed: u64, profile: Profile, plan: RunPlan, main_steps: u64, suffix: (bool, u64)) -> RunResult {
@@ -591,6 +614,7 @@ pub fn run_seed(seed: u64, profile: Profile, opts: &RunOptions) -> RunResult {
         crashes_left: plan.crashes,
         late_workers: plan.late_workers.clone(),
         prunes_left: plan.prunes,
+        queue_events_left: 4,
     };
     for s in &plan.initial_workers {
         d.step(&Action::AddWorker { spec: *s });
@@ -632,6 +656,7 @@ pub fn run_seed(seed: u64, profile: Profile, opts: &RunOptions) -> RunResult {
                 Action::AddWorker { .. } => {
                     budgets.late_workers.remove(0);
                 }
+                Action::QueueEvent { .. } => budgets.queue_events_left -= 1,
                 _ => {}
             }
         }
@@ -654,7 +679,27 @@ pub fn run_seed(seed: u64, profile: Profile, opts: &RunOptions) -> RunResult {
     let suffix = d.fair_suffix(bound);
     d.checker
         .at_quiescence(&d.world, suffix.0, suffix.1 > bound);
+    let sweep = sweep_mode(&plan, seed, opts);
+    d.checker.final_journal_check(&mut d.world, sweep);
     finish(d, seed, profile, plan, steps, suffix)
+}
+
+/// Crash-point sweep over the final journal: every record boundary + interior bytes. Decided
+/// by the seed (a fraction of the Restore-profile runs) or forced by the options.
+fn sweep_mode(plan: &RunPlan, seed: u64, opts: &RunOptions) -> Option<(u64, u32)> {
+    if !plan.cluster.journal {
+        return None;
+    }
+    let wanted = match opts.sweep_one_in {
+        Some(0) => false,
+        Some(n) => mix(&[seed, 0x5eeb]) % n as u64 == 0,
+        None => false,
+    };
+    if wanted {
+        Some((mix(&[seed, 0x5eec]), opts.sweep_interior))
+    } else {
+        None
+    }
 }
 
 /// Executes an explicit action list (no PRNG involved). If `stop_on` is given the execution
@@ -699,10 +744,19 @@ pub fn replay_actions(
         suffix = d.fair_suffix(bound);
         d.checker
             .at_quiescence(&d.world, suffix.0, suffix.1 > bound);
+        let sweep = sweep_mode(plan, seed, opts);
+        d.checker.final_journal_check(&mut d.world, sweep);
     }
     finish(d, seed, plan.profile, plan.clone(), steps, suffix)
 }
 
 pub fn replay(file: &ReplayFile, opts: &RunOptions) -> RunResult {
-    replay_actions(&file.plan, file.seed, &file.actions, opts, None)
+    let opts = RunOptions {
+        verbose: opts.verbose,
+        tag: opts.tag.clone(),
+        force_journal: None,
+        sweep_one_in: file.sweep_one_in,
+        sweep_interior: file.sweep_interior,
+    };
+    replay_actions(&file.plan, file.seed, &file.actions, &opts, None)
 }
